@@ -5,12 +5,15 @@
 import Driver.Codec
 import Driver.Span
 import Driver.Lines
+import Driver.Html
 open Lean
 
 def dispatch (op : String) (j : Json) : Except String Json :=
   match op with
   | "span.tokenize" => Driver.Span.tokenizeOp j
   | "lines.normalize" => Driver.Lines.normalizeOp j
+  | "html.render" => Driver.Html.renderOp j
+  | "escape" => Driver.Html.escapeOp j
   | "ping" => pure (Json.str "pong")
   | _ => throw s!"unknown op {op}"
 
